@@ -125,11 +125,13 @@ package os
 // (the type invariant of the result rests on the assumed shape of filepath.VolumeName's result).
 //@ extern path/filepath.VolumeName(p string) (v string)
 //@   pure
+//@   deterministic
 //@   ensures "prefix" hasPrefix(p, v) && !hasSuffix(v, "/") && !hasSuffix(v, "\\")
 //@ func (fs *FS) SubVolume(volumeName string) (r hackpadfs.FS, err error)
 //@   props C09 C05
 //@   requires fs != nil
 //@   ensures "refused" [C05] implies(fs.root != "" || fs.volumeName != "", r == nil && isPathError(err) && pathOf(err) == volumeName && opOf(err) == "subvolume")
 //@   ensures "error-path" [C05] implies(err != nil, r == nil && isPathError(err) && pathOf(err) == volumeName && opOf(err) == "subvolume")
+//@   ensures "only-a-whole-volume-name" [C09] implies(fs.root == "" && fs.volumeName == "", iff(err == nil, ret("path/filepath.VolumeName", 0, volumeName) == volumeName))   // accepted exactly when the argument is nothing but a volume name (found by the mutation sweep)
 //@   ensures "bound" [C09] implies(err == nil, isType(r, *FS) && r.(*FS) != nil && fresh(r.(*FS)) && r.(*FS).root == "" && r.(*FS).volumeName == volumeName)
 //@   nopanic
